@@ -19,6 +19,7 @@ type zzMember struct {
 	negCalls int
 	unrCalls int
 	closeErr error
+	gate     chan struct{} // when set: the next Write waits here (a slow link)
 }
 
 func zzNewMember(id transport.TransportID, count int) *zzMember {
@@ -32,7 +33,14 @@ func (m *zzMember) Read() ([]byte, error) {
 	}
 	return bs, nil
 }
-func (m *zzMember) Write(bs []byte) error { m.written = append(m.written, bs); return nil }
+func (m *zzMember) Write(bs []byte) error {
+	if g := m.gate; g != nil {
+		m.gate = nil
+		<-g
+	}
+	m.written = append(m.written, bs)
+	return nil
+}
 func (m *zzMember) Close() error {
 	m.closed++
 	if m.closed == 1 {
@@ -303,3 +311,63 @@ func zzC19c2Backlog() {
 	vf.Assert("nothing-invented", extra)
 	vf.Reach("end")
 }
+
+type zzNICs struct{ ch chan string }
+
+func (n *zzNICs) Subscribe() <-chan string { return n.ch }
+
+// C19.f: the NIC event subscriber wired into the multi transport: a burst of 1..4 interface events
+// arrives while the transport is busy (a Write on a slow member holds it); once the backlog has
+// drained the selection is the member named by the LAST event - events are never reordered and the
+// newest one is never dropped - and the next Write goes to that member.
+func zzC19fNICBurst() {
+	vf.Deviations(zzDeviations)
+	tm, a, b := zzMembers()
+	nics := &zzNICs{ch: make(chan string, 8)}
+	sub := &NICEventSubscriber{NICManager: nics, NICTransportID: map[string]transport.TransportID{"eth0": "a", "wlan0": "b"}}
+	m, err := NewTransport(TransportConfig{TransportMap: tm, InitialTransportID: "a", SchedulerMode: SchedulerModeEvent, EventScheduler: &EventScheduler{Subscriber: sub}})
+	vf.Assume(err == nil)
+	defer m.Close()
+	vf.Settle()
+	busy := vf.Choose("transport.busy.during.burst", 2) == 1
+	gate := make(chan struct{})
+	wrote := false
+	if busy {
+		a.gate = gate
+		go func() {
+			m.Write([]byte{1})
+			wrote = true
+		}()
+		vf.Settle()
+	}
+	n := 1 + vf.Choose("burst.length", 4)
+	last := ""
+	for i := 0; i < n; i++ {
+		name := [...]string{"eth0", "wlan0"}[vf.Choose("event."+string(rune('0'+i)), 2)]
+		nics.ch <- name
+		last = name
+		if vf.Choose("pause."+string(rune('0'+i)), 2) == 1 {
+			vf.Settle()
+		}
+	}
+	vf.Settle()
+	if busy {
+		close(gate)
+		vf.Settle()
+		vf.Assert("slow-write-completes", wrote && len(a.written) == 1)
+	}
+	want := sub.NICTransportID[last]
+	m.mu.RLock()
+	cur := m.currentTransportID
+	m.mu.RUnlock()
+	vf.Assert("selection-is-the-last-event", cur == want)
+	na, nb := len(a.written), len(b.written)
+	vf.Assert("write-ok", m.Write([]byte{9}) == nil)
+	if want == "a" {
+		vf.Assert("write-goes-to-the-selected-member", len(a.written) == na+1 && len(b.written) == nb)
+	} else {
+		vf.Assert("write-goes-to-the-selected-member", len(b.written) == nb+1 && len(a.written) == na)
+	}
+	vf.Reach("end")
+}
+func zzC19fNICBurstDev1() { zzDeviations = 1; zzC19fNICBurst() }
